@@ -112,9 +112,13 @@ func (sto *unionStorage) StatBlobs(ctx context.Context, blobs []blob.Ref, f func
 	if err := ctx.Err(); err != nil {
 		return err
 	}
+	// Senders must never block forever nor send on a closed channel once
+	// we have returned: they give up when ctx is canceled.
+	ctx, cancel := context.WithCancel(ctx)
+	defer cancel()
 	// need to dedup the blobs
 	maybeDup := make(chan blob.SizedRef)
-	errCh := make(chan error, 1)
+	errCh := make(chan error, len(sto.subsets))
 	var wg sync.WaitGroup
 	var any bool
 	for _, s := range sto.subsets {
@@ -122,8 +126,12 @@ func (sto *unionStorage) StatBlobs(ctx context.Context, blobs []blob.Ref, f func
 			any = true
 			wg.Go(func() {
 				if err := bs.StatBlobs(ctx, blobs, func(sr blob.SizedRef) error {
-					maybeDup <- sr
-					return nil
+					select {
+					case maybeDup <- sr:
+						return nil
+					case <-ctx.Done():
+						return ctx.Err()
+					}
 				}); err != nil {
 					errCh <- err
 				}
@@ -146,10 +154,15 @@ func (sto *unionStorage) StatBlobs(ctx context.Context, blobs []blob.Ref, f func
 		case <-ctx.Done():
 			return ctx.Err()
 		case err := <-errCh:
-			closeChanOnce.Do(func() { close(maybeDup) })
 			return err
 		case sr, ok := <-maybeDup:
 			if !ok {
+				// All subsets are done; don't lose an error that raced with the close.
+				select {
+				case err := <-errCh:
+					return err
+				default:
+				}
 				return nil
 			}
 			if _, ok = seen[sr.Ref]; !ok {
